@@ -73,6 +73,24 @@ def ilist(v):
     return ",".join(str(x) for x in v) if v else "_"
 
 
+def _gen_large(rng, tier):
+    """more than 4096 columns / more than 100 rows: windows, site lists and transposition across block and buffer sizes"""
+    for _ in range(2 if tier == "quick" else 12):
+        if rng.random() < 0.6:
+            n, L = rng.randint(1, 3), rng.choice([4097, 4200, 5000])
+        else:
+            n, L = rng.choice([101, 130]), rng.randint(2, 6)
+        rows = [("s%d" % i, "".join(rng.choice("ACGT-") for _ in range(L))) for i in range(n)]
+        rs = rows_str(rows)
+        st = rng.randint(0, L - 1)
+        yield Case("subalign", [rs, st, rng.randint(1, L - st)], True, "subalign-large")
+        yield Case("selectsites", [rs, ilist(sorted(rng.sample(range(L), min(L, 6))) + [L - 1, 0])], True, "selectsites-large")
+        yield Case("invcoord", [rs, st, rng.randint(1, L - st)], True, "invcoord-large")
+        yield Case("diff", [rs], n > 1, "diff-large")
+        if L < 100:
+            yield Case("transpose", [rs], True, "transpose-large")
+
+
 def _gen_core(rng, tier):
     N = 300 if tier == "quick" else 3000
     for _ in range(N):
@@ -169,6 +187,8 @@ MULTI_CMDS = [['subseq', '-s', '1', '-l', '2'], ['subseq', '--ref-seq', 'ref', '
 
 
 def gen(rng, tier):
+    for c in _gen_large(rng, tier):
+        yield c
     from driver import multigen
     for c in _gen_core(rng, tier):
         yield c
